@@ -90,6 +90,21 @@ def h_from_ref(ctx):
             vs.append(viol(f"joserfc returns a different payload for a foreign token: {tag}", f"{payload[:40]!r} -> {got[:40]!r}"))
         if hdrs[0] != hdr:
             vs.append(viol(f"joserfc returns a different header for a foreign token: {tag}", f"{hdr} -> {hdrs[0]}"))
+    if path == "compact":
+        # a batch through the two-step API: this token is extracted, then another peer token, then this one is validated
+        from joserfc import jws
+
+        def batch():
+            obj = jws.extract_compact(token.encode())
+            seg2 = b64.enc(b'{"alg":"HS256"}')
+            other = seg2 + "." + b64.enc(b"another peer token") + "." + b64.enc(ref_sign("HS256", scen.key("oct32", 3), rjws.signing_input(seg2, b"another peer token", True), "as-is"))
+            jws.extract_compact(other.encode())
+            if jws.validate_compact(obj, vkey, algorithms=[alg]) is not True:
+                raise ValueError("validate_compact did not return True")
+            return bytes(obj.payload)
+        b = call(batch)
+        if not b.ok or b.value != payload:
+            vs.append(viol(f"joserfc rejects a valid peer token when another token is extracted before it is validated: {tag}", f"{alg}/{kind} payload {pname}: {b.exc!r}"))
     return Outcome(f"{'ok' if not vs else 'bad'}:{alg}:{path}:{spell_name}", vs, nontrivial=("ref->lib", alg, kind, path, spell_name, pname, s_form))
 
 
@@ -101,7 +116,25 @@ def h_to_ref(ctx):
     pls = A.payload_classes(full=config.thorough())
     if path == "7797-flattened":
         pls = [(n, p) for n, p in pls if c03._is_utf8(p)]
+    if path == "7797-flattened":
+        pls = pls + [("not-utf8:" + n, p) for n, p in A.payload_classes(full=config.thorough()) if not c03._is_utf8(p)]
     pname, payload = ctx.choose("payload", pls)
+    if pname.startswith("not-utf8:"):
+        # an unencoded payload travels as a JSON string: octets that are not UTF-8 text have no such form. Refusing is fine; a token,
+        # if one is produced, must be JSON that an independent implementation can read and verify
+        jwk = scen.key(kind)
+        prot, hdr = c03.header_layout(path, alg, placement, extras)
+        r = scen.jws_produce(path, prot, hdr, payload, A.jkey(jwk, "dict"), [alg])
+        vs = []
+        if r.ok:
+            try:
+                text = json.dumps(r.value).encode("utf-8")
+                _, p2 = rjws.verify_json(json.loads(text), jwk if jwk["kty"] == "oct" else rjwk.public_of(jwk))
+                if p2 != payload:
+                    vs.append(viol("an unencoded payload that is not UTF-8 text is signed as other octets (7797 JSON)", f"{alg} {pname}: {payload[:20]!r} -> {p2[:20]!r}"))
+            except (RefError, ValueError, UnicodeError) as e:
+                vs.append(viol("joserfc emits an RFC 7797 JSON token that an independent implementation cannot read or verify", f"{alg} {pname}: {e!r}"))
+        return Outcome(f"not-utf8:{'produced' if r.ok else 'refused'}:{alg}", vs, nontrivial=("lib->ref", alg, kind, path, placement, pname))
     bucket, vs = c03.run_case(ctx, alg, kind, path, "dict", "key", "public", placement, extras, pname, payload)
     # only the wire-format findings belong here
     vs = [v for v in vs if "independent verifier" in v["fingerprint"] or "reference recovers" in v["fingerprint"] or "signing fails" in v["fingerprint"]]
